@@ -6,7 +6,9 @@ from hypothesis import strategies as st
 from vf import canon as cn
 from vf import progdiff as pd
 from vf import refworker as rw
+from vf.gen import asm as ga
 from vf.gen import prog as gp
+from vf.gen import tables as gt
 from vf.pool import ALL_VERSIONS
 from vf.run import Result
 
@@ -31,10 +33,24 @@ class ProgProp:
         max_size = 30000 if ctx.tier == "quick" else 150000
         versions = self.versions
 
+        asm_kinds = ["asm", "asm"] if self.use_asm else []
+        tab_kinds = ["table", "table"] if self.use_tables else []
+
         @st.composite
         def case(draw):
             v = draw(st.sampled_from(versions))
-            k = draw(st.sampled_from(["prog", "prog", "prog", "stdlib", "stdlib"]))
+            k = draw(st.sampled_from(["prog", "prog", "prog", "stdlib", "stdlib"] + asm_kinds + tab_kinds))
+            if k == "table":
+                vtup = pd.vt(v)
+                if vtup >= (3, 11):
+                    first = draw(st.sampled_from([1, 1, 5, 1000]))
+                    return {"k": "loctab", "v": v, "first": first, "entries": draw(gt.loctab_entries(first)),
+                            "exc": draw(gt.exctab_entries())}
+                c = draw(gt.lnotab_cases(vtup))
+                c.update({"k": "lnotab", "v": v})
+                return c
+            if k == "asm":
+                return {"k": "asm", "v": v, "items": draw(ga.asm_cases(v, self.tables(ctx, v)))}
             if k == "prog":
                 src = draw(gp.programs(v, size=draw(st.integers(2, 5))))
                 return {"k": "prog", "v": v, "src": src}
@@ -42,16 +58,71 @@ class ProgProp:
             return {"k": "stdlib", "v": v, "path": draw(st.sampled_from(files))}
         return case()
 
+    use_asm = False
+    use_tables = False
+
+    def table_reference(self, case, ctx):
+        """a native code object of NOPs carrying the drawn line / location / exception table"""
+        v = case["v"]
+        tab = self.tables(ctx, v)
+        nop = tab.opmap["NOP"]
+        f = {"co_firstlineno": ["i", str(int(case["first"]))]}
+        if case["k"] == "lnotab":
+            n = int(case["codelen"])
+            if n < 1 or n > 20000:
+                return {"reject": "malformed-table-case"}
+            unit = bytes([nop, 0]) if tab.v >= (3, 6) else bytes([nop])
+            code = (unit * n)[:n]
+            f["co_linetable"] = ["y", case["table"]]
+        else:
+            try:
+                lt = gt.encode_loctab(case["entries"])
+                et = gt.encode_exctab(case.get("exc", []))
+                units = sum(e[1] for e in case["entries"])
+            except Exception:
+                return {"reject": "malformed-table-case"}
+            if units < 1 or units > 5000:
+                return {"reject": "malformed-table-case"}
+            code = bytes([nop, 0]) * units
+            f["co_linetable"] = ["y", rw.hx(lt)]
+            f["co_exceptiontable"] = ["y", rw.hx(et)]
+        f["co_code"] = ["y", rw.hx(code)]
+        r = ctx.pool.ref(v).call("mkcode", fields=f, dis=True)
+        if "reject" not in r and "referr" in r["dis"][0]:
+            return {"reject": "reference-dis-cannot-render: " + r["dis"][0]["referr"].split(":")[0]}
+        return r
+
+    def tables(self, ctx, v):
+        key = ("asmtab", v)
+        if key not in ctx.cache:
+            ctx.cache[key] = ga.Tables(v, ctx.pool.ref(v).call("opcode_tables"))
+        return ctx.cache[key]
+
     # -- reference + xdis
     def reference(self, case, ctx):
         v = case["v"]
+        if case["k"] in ("lnotab", "loctab"):
+            return self.table_reference(case, ctx)
+        if case["k"] == "asm":
+            tab = self.tables(ctx, v)
+            for it in case["items"]:
+                if not isinstance(it, dict) or it.get("op") not in tab.opmap:
+                    return {"reject": "malformed-asm: unknown opcode"}
+            co_code, starts, info = ga.assemble(tab, case["items"])
+            r = ctx.pool.ref(v).call("mkcode", fields=ga.code_fields(tab, co_code, rw.hx), dis=True)
+            if "reject" not in r and "referr" in r["dis"][0]:
+                return {"reject": "reference-dis-cannot-render: " + r["dis"][0]["referr"].split(":")[0]}
+            return r
         if case["k"] == "prog":
             return ctx.pool.ref(v).call("compile", src=case["src"], dis=True)
         return ctx.pool.ref(v).call("compile_file", path=case["path"], dis=True)
 
     def judge(self, case, ctx):
         res = Result()
-        if case.get("k") not in ("prog", "stdlib") or case.get("v") not in ALL_VERSIONS:
+        if case.get("k") not in ("prog", "stdlib", "asm", "lnotab", "loctab") or case.get("v") not in ALL_VERSIONS:
+            res.reject = "malformed-case"
+            return res
+        if (case["k"] == "lnotab") != (pd.vt(case["v"]) < (3, 11)) and case["k"] in ("lnotab", "loctab"):
             res.reject = "malformed-case"
             return res
         v = case["v"]
@@ -79,6 +150,16 @@ class ProgProp:
         return res
 
     def sample(self, case, ref):
+        if case["k"] == "lnotab":
+            return {"version": case["v"], "kind": "drawn line table", "table_hex": case["table"], "first_line": case["first"],
+                    "code_len": case["codelen"]}
+        if case["k"] == "loctab":
+            return {"version": case["v"], "kind": "drawn location + exception tables", "first_line": case["first"],
+                    "entries": case["entries"][:6], "exception_entries": case.get("exc", [])[:4]}
+        if case["k"] == "asm":
+            return {"version": case["v"], "kind": "assembled code object",
+                    "items": ["%s %s%s%s" % (i["op"], i.get("arg"), " +%dpre" % i["pre"] if i.get("pre") else "",
+                                             " ->%s" % i["to"] if i.get("to") is not None else "") for i in case["items"][:8]]}
         if case["k"] == "prog":
             src = case["src"]
             return {"version": case["v"], "kind": "generated program", "lines": src.count("\n"),
